@@ -337,14 +337,22 @@ fn decode_everything(run: &Run, bytes: &[u8], how: &str) {
         };
     }
     dec!("RecordHeader::from_record", RecordHeader::from_record(&r).map(|h| h.kind));
-    dec!("record<Chunk>", try_deserialize_record::<Chunk>(&r).map(|c| {
-        // a decoded chunk's address is always recomputed from its bytes
-        assert_eq!(*c.address(), ChunkAddress::new(XorName::from_content(c.value())), "decoded chunk address is not the hash of its bytes");
-    }));
+    // a decoded chunk's address is always recomputed from its bytes (plain and with-payment form)
+    let chunk_ok = |c: &Chunk, which: &str| {
+        if *c.address() != ChunkAddress::new(XorName::from_content(c.value())) {
+            run.violation(
+                "decoded-chunk-address-is-content-hash",
+                which,
+                format!("{which} decoded ({how}, {} bytes) to a chunk whose address is not the hash of its bytes: the address can be forged", bytes.len()),
+                json!({"op":"decode","decoder":which,"how":how,"bytes":hex::encode(&bytes[..bytes.len().min(4096)])}),
+            );
+        }
+    };
+    dec!("record<Chunk>", try_deserialize_record::<Chunk>(&r).map(|c| chunk_ok(&c, "record<Chunk>")));
     dec!("record<Scratchpad>", try_deserialize_record::<Scratchpad>(&r).map(|s| format!("{s:?}")));
     dec!("record<Vec<Transaction>>", try_deserialize_record::<Vec<Transaction>>(&r).map(|s| s.len()));
     dec!("record<SignedRegister>", try_deserialize_record::<SignedRegister>(&r).map(|s| s.ops().len()));
-    dec!("record<(Proof,Chunk)>", try_deserialize_record::<(ProofOfPayment, Chunk)>(&r).map(|_| ()));
+    dec!("record<(Proof,Chunk)>", try_deserialize_record::<(ProofOfPayment, Chunk)>(&r).map(|(_, c)| chunk_ok(&c, "record<(Proof,Chunk)>")));
     dec!("record<(Proof,Scratchpad)>", try_deserialize_record::<(ProofOfPayment, Scratchpad)>(&r).map(|_| ()));
     dec!("record<(Proof,Transaction)>", try_deserialize_record::<(ProofOfPayment, Transaction)>(&r).map(|_| ()));
     dec!("record<(Proof,SignedRegister)>", try_deserialize_record::<(ProofOfPayment, SignedRegister)>(&r).map(|_| ()));
@@ -364,7 +372,7 @@ pub fn main(tier: Option<&str>) {
         "value pools per record kind (chunks of 9(14) boundary sizes, 21 scratchpads, 10 transactions and their vectors, 12 registers, \
          4 proofs and every (proof, value) pairing), every Request/Response variant over a 9-address pool with boundary field values; \
          each is encoded, decoded, compared, its prefix checked against the pinned tag table and its bytes against the committed \
-         golden file; then every byte string of length <=2 (all 65,792), every sequence <=3(4) over 24 marker bytes, and every truncation \
+         golden file; then every byte string of length <=2 (all 65,792), every sequence <=3(4) over 24 marker bytes, every well-formed MessagePack body of 9 other shapes (explicit address next to the content, map, nesting) behind every kind's header, and every truncation \
          and single-byte substitution of every encoding above is fed to all 11 decoders. Non-trivial: any decode input longer than the header.",
     );
     run.assume("wire codecs are the ones the code uses: rmp-serde for records, cbor4ii (libp2p request-response cbor codec) for messages");
@@ -523,6 +531,36 @@ pub fn main(tier: Option<&str>) {
             });
         } else {
             enumerate::byte_mutations(e, &subs, |m| decode_everything(&run, m, name));
+        }
+    }
+    // well-formed MessagePack of *other shapes* behind every kind's header: what a peer could send to a decoder that
+    // is more liberal than the encoder (an explicit address next to the content, a map instead of a sequence, nesting)
+    {
+        #[derive(Serialize)]
+        struct AddrAndValue {
+            address: ChunkAddress,
+            value: Bytes,
+        }
+        let content = Bytes::from_static(b"content of the crafted chunk");
+        let victim = ChunkAddress::new(XorName::from_content(b"the address of some other chunk"));
+        let mut shapes: Vec<(&str, Vec<u8>)> = vec![
+            ("(address, value) as a sequence", rmp_serde::to_vec(&(victim, content.clone())).unwrap()),
+            ("(value, address) as a sequence", rmp_serde::to_vec(&(content.clone(), victim)).unwrap()),
+            ("{address, value} as a map", rmp_serde::to_vec_named(&AddrAndValue { address: victim, value: content.clone() }).unwrap()),
+            ("[value] as a one-element sequence", rmp_serde::to_vec(&(content.clone(),)).unwrap()),
+            ("[[value]] nested", rmp_serde::to_vec(&((content.clone(),),)).unwrap()),
+            ("value as a sequence of integers", rmp_serde::to_vec(&content.to_vec()).unwrap()),
+        ];
+        shapes.push(("(proof-less pair) (value, value)", rmp_serde::to_vec(&(content.clone(), content.clone())).unwrap()));
+        let empty_proof = ProofOfPayment { peer_quotes: vec![] };
+        shapes.push(("(proof, (address, value))", rmp_serde::to_vec(&(empty_proof.clone(), (victim, content.clone()))).unwrap()));
+        shapes.push(("(proof, {address, value})", rmp_serde::to_vec_named(&(empty_proof, AddrAndValue { address: victim, value: content.clone() })).unwrap()));
+        for (tag_kind, tag) in TAGS.iter() {
+            for (sname, body) in &shapes {
+                let mut bytes = vec![0x91u8, *tag];
+                bytes.extend_from_slice(body);
+                decode_everything(&run, &bytes, &format!("other-shape:{tag_kind:?}:{sname}"));
+            }
         }
     }
     run.sample(json!({"decode": {"how": "marker-bytes", "bytes": "91 01 c6"}}));
